@@ -18,10 +18,19 @@ def main():
     seed = int(os.environ.get("VERIF_SEED", "1"))
     mod = importlib.import_module("vlib.props." + a.pid.lower())
     res = core.Result(a.pid, a.tier, seed)
-    if hasattr(mod, "run"):
-        mod.run(res, a)
-    else:
-        generic(mod, res, a)
+    try:
+        if hasattr(mod, "run"):
+            mod.run(res, a)
+        else:
+            generic(mod, res, a)
+    except Exception:
+        # The machinery itself could not complete on this tree (the harness no longer compiles against it, a driver died
+        # in a way no stage expected, ...). On the unchanged tree this does not happen; the property is then no longer
+        # shown to hold, which is reported as such — never as a bare traceback.
+        import traceback
+        tb = traceback.format_exc()
+        sys.stderr.write(tb)
+        res.broken.append("the check could not be completed on this tree: " + tb.strip().splitlines()[-1][:300] + " | " + " / ".join(l.strip() for l in tb.strip().splitlines()[-7:-1])[:900])
     core.report_broken_without_input(res)
     return core.finish(res)
 
